@@ -135,6 +135,18 @@ pub fn collect(specs: &[Spec], depth_deep: bool, extra_presentations: u64) -> (V
                     }
                 }
             }
+            Spec::Names { extra } => {
+                for nc in crate::names::relation_cases(*extra) {
+                    if nc.duplicate_fields {
+                        continue;
+                    }
+                    if let Some(c) = crate::gramsweep::case_from_source(&nc.source) {
+                        let (gr, mut pres) = (c.g.clone(), c.pres.clone());
+                        pres.names.retain(|k, _| !(k.starts_with('p') || k.starts_with('a')));
+                        add_with(gr, pres, &mut out, &mut n);
+                    }
+                }
+            }
         }
         scopes.push(json!({"name": spec.name(), "size": n, "accepted_modules": out.len() - before, "completed": true, "exhaustive": true, "layer": "real code (rustc-compiled parse)"}));
     }
